@@ -222,6 +222,10 @@ def run(tier, seed, replay=None):
                             f"({rec['variant']}): exit={rec['exit']} singles={rec['single_exit']}",
                             rec)
         t_ok, t_rej, tstates = ptrace.validate(obs_for_trace, base)
+        suite_cov = {}
+        if tier == "thorough":
+            from . import suite
+            suite_cov = suite.check(v, "C15", base)
         for rj in t_rej:
             if rj["invariant"] in ptrace.INVS["C15"]:
                 v.violation(f"trace:{rj['invariant']}:{rj['key']}",
@@ -242,6 +246,7 @@ def run(tier, seed, replay=None):
                    "(order, mode, variant)" % (3 if tier == "quick" else 4),
            "orders_generated": len(orders), "obs_states": ostates, "trace_states": tstates,
            "exhaustive": tier == "thorough"}
+    cov.update(suite_cov)
     return v.finish("model_checking", cov, [
         "per-file projection of stdout/json/diff output by path-keyed splitting; scratch "
         "directory prefix normalised before hashing"])
